@@ -110,3 +110,20 @@ func specPlain4(p *packets.FrameParser) bool {
 //@ ensures[C10.entry.atom]  ret1 != nil ==> ret0 == nil
 //@ ensures[C03.entry.hops]  ret1 == nil ==> ret0 != nil && forall(i, 0, len(ret0.Hops), ret0.Hops[i] != nil)
 //@ modifies *
+
+//@ func (*tcpDriver).SendProbe
+//@ safety C06 C05
+//@ requires[pre.nonnil]   t != nil && t.sink != nil && t.config != nil && t.config.buffer != nil
+//@ requires[pre.past]     forall(k, 0, len(t.sentProbes), t.sentProbes[k].sendTime <= now() && t.sentProbes[k].sendTime != 0)
+//@ ensures[C06.append]    ret0 == nil ==> len(t.sentProbes) == old(len(t.sentProbes))+1 && specLast(t).ttl == ttl && specLast(t).sendTime != 0
+//@ ensures[C06.others]    ret0 == nil ==> forall(k, 0, old(len(t.sentProbes)), t.sentProbes[k] == old(t.sentProbes[k]))
+//@ ensures[C05.stamp]     ret0 == nil ==> wrN == old(wrN)+1 && specLast(t).sendTime <= wrClock && specLast(t).sendTime >= old(now())
+//@ ensures[C05.past]      forall(k, 0, len(t.sentProbes), t.sentProbes[k].sendTime <= now() && t.sentProbes[k].sendTime != 0)
+//@ ensures[C06.wire.ttl]  ret0 == nil ==> ghost(ser.ttl) == int(ttl) && ghost(ser.proto) == 6 && ghost(ser.version) == 4
+//@ ensures[C06.wire.id]   ret0 == nil ==> ghost(ser.ipid) == int(specLast(t).packetID) && ghost(ser.seq) == int(specLast(t).seqNum)
+//@ ensures[C06.wire.ids]  ret0 == nil && !t.config.ParisTracerouteMode ==> int(specLast(t).packetID) == (int(t.basePacketID) + int(ttl)) % 65536 && specLast(t).seqNum == t.seqNum
+//@ ensures[C06.wire.port] ret0 == nil ==> ghost(ser.sport) == int(t.config.srcPort) && ghost(ser.dport) == int(t.config.DestPort) && ghost(ser.syn) && !ghost(ser.ack) && !ghost(ser.rst) && !ghost(ser.fin)
+//@ ensures[C06.wire.opts] ret0 == nil ==> ghost(ser.fix) && ghost(ser.csum) && ghost(ser.pseudo)
+//@ ensures[C10.send.wrap] ret0 != nil ==> noRepoErr(ret0)
+//@ lemma[C06.inject]      forall(b, 0, 65536, forall(a, 0, 256, forall(c, 0, 256, a != c ==> (b + a) % 65536 != (b + c) % 65536)))
+//@ modifies t.mu, t.sentProbes, TCPv4.buffer, ghost clock, ghost wrN, ghost wrClock
